@@ -135,7 +135,7 @@ func (h *H) checkTri(id string, seedIdx, n int, ul blas.Uplo, dg blas.Diag, sing
 	if deep {
 		nrhsList = []int{0, 1, 3, 17}
 	}
-	for ti, trans := range []blas.Transpose{blas.NoTrans, blas.Trans} {
+	for ti, trans := range []blas.Transpose{blas.NoTrans, blas.Trans, blas.ConjTrans} {
 		nrhs := nrhsList[(seedIdx+ti)%len(nrhsList)]
 		b := ref.FromFunc(n, nrhs, func(i, j int) float64 { return rng.Sym() })
 		cf := cfg{pad: 7 * ((seedIdx + ti) % 2), guard: (seedIdx+ti)%4 == 1}
@@ -190,7 +190,7 @@ func (h *H) checkTri(id string, seedIdx, n int, ul blas.Uplo, dg blas.Diag, sing
 	}
 
 	// ---- Dlatrs (the scaled solve used by the estimators) ---------------------------------
-	for ti, trans := range []blas.Transpose{blas.NoTrans, blas.Trans} {
+	for ti, trans := range []blas.Transpose{blas.NoTrans, blas.Trans, blas.ConjTrans} {
 		normin := (seedIdx+ti)%2 == 1
 		tg := tag + fmt.Sprintf(" trans=%c normin=%v", trans, normin)
 		fl := D{"uplo": int(ul), "diag": int(dg), "trans": int(trans), "normin": b2i(normin)}
@@ -268,7 +268,7 @@ func (h *H) checkTriBand(id string, seedIdx, n, kd int, ul blas.Uplo, dg blas.Di
 	}
 	ab := fullToBand(t, kd, upper)
 	tag := triTag(ul, dg)
-	for ti, trans := range []blas.Transpose{blas.NoTrans, blas.Trans} {
+	for ti, trans := range []blas.Transpose{blas.NoTrans, blas.Trans, blas.ConjTrans} {
 		nrhs := []int{1, 3, 0, 17}[(seedIdx+ti)%4]
 		b := ref.FromFunc(n, nrhs, func(i, j int) float64 { return rng.Sym() })
 		cf := cfg{pad: 7 * ((seedIdx + ti) % 2), guard: (seedIdx+ti)%4 == 2}
@@ -307,7 +307,7 @@ func (h *H) checkTriBand(id string, seedIdx, n, kd int, ul blas.Uplo, dg blas.Di
 	if singular || n == 0 {
 		return
 	}
-	for ti, trans := range []blas.Transpose{blas.NoTrans, blas.Trans} {
+	for ti, trans := range []blas.Transpose{blas.NoTrans, blas.Trans, blas.ConjTrans} {
 		normin := (seedIdx+ti)%2 == 0
 		tg := tag + fmt.Sprintf(" trans=%c normin=%v", trans, normin)
 		fl := D{"uplo": int(ul), "diag": int(dg), "trans": int(trans), "normin": b2i(normin)}
